@@ -252,7 +252,7 @@ def obligations(tier, seed):
                                         % (cname, sg, "2 charts" if sg in ("sm", "o2j") else "1 chart", ", 1 SV" if sg in SV_GAMES else "", h),
                                   max_paths=3000, timeout_s=200))
         if cname in SHIFT:
-            for sh in ((2,) if quick else (1, 2, 3)):
+            for sh in ((0, 2) if quick else (0, 1, 2, 3)):  # explicit values, including the one that is falsy
                 obs.append(Obligation("C08/%s/shift%d" % (cname, sh), partial(ob_convert, cname, "stack"), params=dict(shift=sh),
                                       bound="%s with move_right_by=%d after a stack edit" % (cname, sh)))
     # other key counts; and targets that cannot represent the key count, converted with raise_bad_mode=False
